@@ -145,6 +145,8 @@ class Driver:
             if lag:
                 sq.append((rid, self.show("squeue", j)))
                 sa.append((rid, self.show("sacct", j, "R" if j.get("ran") else "PD")))
+            elif self.backend == "slurm" and st == "PD" and random.Random(self.variant * 17 + j["id"]).random() < 0.4:
+                pass        # accounting is written asynchronously: no record yet of a job the queue already lists
             else:
                 sa.append((rid, "PENDING" if st == "E" else self.show("sacct", j)))
             bj.append((rid, "UNKWN" if st == "E" else self.show("bjobs", j)))
@@ -295,6 +297,8 @@ class Driver:
         self.write_conf()
         os.makedirs(sb.path(".gwf/logs"), exist_ok=True)
         sb.write("notes.txt", "an unrelated file\n")
+        if self.variant % 5 == 2:
+            os.symlink("run-that-was-cleaned-up", sb.path("latest"))      # a dangling link next to the workflow's files
         if self.subdir:
             for f in self.files:
                 sb.write(os.path.join(self.subdir, f), "not a workflow file: %s\n" % f)
